@@ -204,6 +204,22 @@ def cases(tier, rng):
         yield from s1.with_faults(case)
     yield from s1.random_cases(tier, rng, [k for k in s1.KINDS_ALL if k != "list"], 2000 if tier == "quick" else 40000,
                                faults=True, cons_kinds=("exhaust",))
+    # multi-source tools over MIXED argument lists: a faulting instrumented source next to real lists / tuples-like
+    # sequences of other lengths (a short-cut taken for sized arguments must not skip the pull that raises)
+    from tools import build_case
+    grid = s1.tool_grid(tier)
+    layouts = [["aobj", "list"], ["agen", "list", "list"], ["list", "aobj"], ["iter", "list"], ["aobj", "seq"], ["list", "iter", "list"]]
+    for tool in ("zip", "map", "zip_longest", "merge", "chain", "compress"):
+        nsrc, plist, fns, style = grid[tool]
+        for params in plist[:2]:
+            for kinds in layouts:
+                if tool == "compress" and len(kinds) != 2:
+                    continue
+                for lens in ([2, 1, 1], [1, 2, 2], [2, 2, 2], [3, 1, 2]):
+                    keyseqs = [[1, 2, 3][: lens[i % 3]] for i in range(len(kinds))]
+                    case = build_case(tool, params, fns, style, keyseqs, kinds, {"fin": "exhaust"}, ["def"] * len(fns))
+                    for c in s1.with_faults(case):
+                        yield dict(c, family="mixed")
 
 
 def _proj(vis, out):
